@@ -3,7 +3,28 @@ from __future__ import annotations
 
 import ast
 import collections
+import json
+import os
 import re
+import subprocess
+import sys
+
+
+def _pin_hash_seed():
+    """The iteration order of Python sets of str-keyed objects depends on the per-process string hash seed.  A check
+    run and its replays must see the same layout, so the entry points run under a pinned PYTHONHASHSEED (re-exec once
+    when none is set); every generated case records the seed it was evaluated under (`phs`) and run_impl re-executes a
+    case in a sub-process when the current seed differs."""
+    if os.environ.get("PYTHONHASHSEED") in (None, "", "random") and os.path.basename(sys.argv[0]) in ("run.py", "dbg.py"):
+        env = dict(os.environ)
+        env["PYTHONHASHSEED"] = str(100 + int(os.environ.get("VERIF_SEED", "0") or 0))
+        sys.stdout.flush()
+        sys.stderr.flush()
+        os.execve(sys.executable, [sys.executable] + sys.argv, env)
+
+
+_pin_hash_seed()
+PHS = os.environ.get("PYTHONHASHSEED")
 
 from vcommon import Prop
 import gen_c11
@@ -160,6 +181,47 @@ def text_of(imports):
     return "".join(l + "\n" for l in out)
 
 
+def expected_flags(imports):
+    """OR of the compiler flags of the __future__ features imported (from the stdlib's own table)"""
+    import __future__
+    f = 0
+    for i in imports:
+        if i["k"] == "from" and i["lvl"] == 0 and i["mod"] == "__future__" and i["name"] != "*":
+            f |= getattr(__future__, i["name"]).compiler_flag
+    return f
+
+
+def observe_flags(S, out):
+    """the compiler flags pyflyby itself computes for the set and for the formatted text parsed back (every path)"""
+    from pyflyby._importclns import ImportSet
+    from pyflyby._parse import PythonBlock
+    from pyflyby._flags import CompilerFlags
+    res = {}
+    for name, fn in (("ImportSet.flags", lambda: S.flags),
+                     ("ImportSet(text).flags", lambda: ImportSet(out).flags),
+                     ("PythonBlock(text).flags", lambda: PythonBlock(out).flags),
+                     ("PythonBlock(text).statements", lambda: len(PythonBlock(out).statements) * 0),
+                     ("CompilerFlags.from_ast", lambda: CompilerFlags.from_ast(ast.parse(out))),
+                     ("statement flags", lambda: CompilerFlags(*[st.flags for st in ImportSet(out).statements]))):
+        try:
+            res[name] = int(fn())
+        except Exception as e:
+            res[name] = "raised " + type(e).__name__ + ": " + str(e)[:120]
+    return res
+
+
+def run_sub(case, hashseed):
+    """run_impl of `case` in a fresh interpreter under PYTHONHASHSEED=hashseed"""
+    c = {k: v for k, v in case.items() if k not in ("phs", "hashseeds")}
+    env = dict(os.environ)
+    env["PYTHONHASHSEED"] = str(hashseed)
+    p = subprocess.run([sys.executable, os.path.abspath(__file__), "--sub"], input=json.dumps(c), env=env,
+                       stdout=subprocess.PIPE, stderr=subprocess.PIPE, text=True, timeout=120)
+    if p.returncode != 0:
+        raise RuntimeError("sub-process under PYTHONHASHSEED=%s failed: %s" % (hashseed, p.stderr[-400:]))
+    return json.loads(p.stdout)
+
+
 def build_set(imports, via):
     """a brand-new ImportSet made of brand-new Import objects"""
     from pyflyby._importclns import ImportSet
@@ -270,6 +332,9 @@ class C11(Prop):
         ("lib/python/pyflyby/_importclns.py", "ImportSet._by_module_name"),
         ("lib/python/pyflyby/_importclns.py", "ImportSet.conflicting_imports"),
         ("lib/python/pyflyby/_importclns.py", "ImportSet._from_imports"),
+        ("lib/python/pyflyby/_importclns.py", "ImportSet.imports"),
+        ("lib/python/pyflyby/_importclns.py", "ImportSet.flags"),
+        ("lib/python/pyflyby/_flags.py", None),
     ]
     quick_cases = 2400
     thorough_cases = 100000
@@ -283,7 +348,12 @@ class C11(Prop):
             "and a small scope of 736 points) call SEQUENCES on one ImportSet object: 2-6 of pretty_print with changing parameters "
             "(separate_from_imports flips, width/align changes), get_statements, repr(), .statements/.imports, ImportStatement.pretty_print "
             "several times + str(), with_imports / | / without_imports followed by formatting - every call must equal the same call on a "
-            "fresh equal object and the model's answer; "
+            "fresh equal object and the model's answer; __future__ imports range over all of __future__.all_feature_names (alone, several, all, "
+            "aliased) and the flags pyflyby computes when it parses its own output back (ImportSet(text).flags, PythonBlock(text).flags, "
+            "CompilerFlags.from_ast, statement flags) must equal the stdlib's flags of the imported features; ~10 % of the sets import one "
+            "fullname under 2-6 local names; every set is also built in the opposite order (same text required) and a share is formatted "
+            "again in sub-processes under three PYTHONHASHSEED values (same text required); the check runs under a pinned PYTHONHASHSEED, "
+            "every case records it and a replay re-executes the case under the recorded seed; "
             "non-trivial = output has a wrapped statement (more physical lines than statements); distinct by case")
     trusted_base = ["CPython's parser (`ast.parse`) defines 'valid Python' and which imports a text denotes",
                     "the Lean reference grammar `parseBlock` (subset of import syntax the formatter can emit) is a model of CPython's "
@@ -309,20 +379,36 @@ class C11(Prop):
             t, bad = gen_c11.gen_stmt_text(rng)
             return dict(kind="parse", text=t)
         if i % 4 == 1:
-            return gen_c11.gen_seq_case(rng)
-        return gen_c11.gen_case(rng)
+            return dict(gen_c11.gen_seq_case(rng), phs=PHS)
+        c = dict(gen_c11.gen_case(rng), phs=PHS)
+        # sub-process budget: the in-process order/round-trip checks run on every case, the three extra interpreters on a share
+        if "hashseeds" in c and rng.random() > (0.03 if tier == "thorough" else 0.25):
+            del c["hashseeds"]
+        return c
 
     def exhaustive_cases(self, tier, rng):
         sets, grid = gen_c11.small_scope()
         pts = [(s, g) for s in sets for g in grid]
         if tier != "thorough":
             pts = rng.sample(pts, len(pts) // 20)
-        return [gen_c11.small_case(s, g, rng) for s, g in pts] + gen_c11.small_seq_cases(rng, tier == "thorough")
+        return [dict(c, phs=PHS) for c in
+                [gen_c11.small_case(s, g, rng) for s, g in pts] + gen_c11.small_seq_cases(rng, tier == "thorough")]
 
     # -- implementation ------------------------------------------------------------------------
     def run_impl(self, case):
         if case.get("kind") == "parse":
             return dict(ast=ast_statements(case["text"]))
+        phs = case.get("phs")
+        if phs is not None and str(phs) != (PHS or ""):
+            # evaluated under another string hash seed when it was generated: reproduce that interpreter state
+            obs = run_sub(case, phs)
+        else:
+            obs = self.run_local(case)
+        if case.get("hashseeds"):
+            obs["by_hashseed"] = {str(h): run_sub(case, h) for h in case["hashseeds"]}
+        return obs
+
+    def run_local(self, case):
         if case.get("kind") == "seq":
             return self.run_seq(case)
         from pyflyby._importclns import ImportSet
@@ -353,7 +439,16 @@ class C11(Prop):
         try:
             obs["refmt"] = ImportSet(out).pretty_print(params=mk_params(case))
         except Exception as e:
-            obs["refmt_err"] = err_enum(e)
+            obs["refmt_err"] = err_enum(e) + ": " + str(e)[:150]
+        # every case with a __future__ import, and a deterministic quarter of the others
+        if any(i["mod"] == "__future__" for i in case["imports"]) or len(out) % 4 == 0:
+            obs["flags"] = observe_flags(S, out)
+        # an equal set built in the opposite order
+        try:
+            R = build_set(list(reversed(case["imports"])), "split")
+            obs["rev"] = dict(equal=(R == S), out=R.pretty_print(params=mk_params(case)))
+        except Exception as e:
+            obs["rev"] = dict(err=err_enum(e))
         return obs
 
     def run_seq(self, case):
@@ -399,6 +494,18 @@ class C11(Prop):
                               same_object=str(obs["again"])[:400], fresh_object=str(obs["fresh"][0])[:400], imports=imports))
         return fails[:3]
 
+    def oracle_hashseed(self, case, obs, brief):
+        """the result must not depend on PYTHONHASHSEED"""
+        out = []
+        keys = ("out", "err", "stmts", "refmt", "same", "fresh")
+        for h, o in sorted((obs.get("by_hashseed") or {}).items(), key=lambda kv: int(kv[0])):
+            d = [k for k in keys if o.get(k) != obs.get(k)]
+            if d:
+                out.append(dict(what="the formatted text depends on PYTHONHASHSEED", hashseed=int(h), reference_hashseed=case.get("phs", PHS),
+                                differs_in=d, under_hashseed=str(o.get(d[0]))[:400], reference=str(obs.get(d[0]))[:400], **brief))
+                break
+        return out
+
     # -- oracle --------------------------------------------------------------------------------
     def oracle(self, case, obs):
         if case.get("kind") == "parse":
@@ -438,6 +545,20 @@ class C11(Prop):
         elif obs["refmt"] != out:
             fails.append(dict(what="re-formatting the re-parsed set gives different text", out=out[:400],
                               refmt=obs["refmt"][:400], **brief))
+        # the compiler flags pyflyby computes for the text it wrote (every path that parses the block back)
+        wf = expected_flags(imps)
+        for path, v in sorted((obs.get("flags") or {}).items()):
+            if path == "PythonBlock(text).statements":
+                if v != 0:
+                    fails.append(dict(what="parsing the formatted block back with pyflyby raised", path=path, got=v, out=out[:400], **brief))
+            elif v != wf:
+                fails.append(dict(what="__future__ flags of the formatted block differ from the features imported", path=path, got=v,
+                                  want=wf, out=out[:400], **brief))
+        rev = obs.get("rev")
+        if rev is not None and (rev.get("out") != out or not rev.get("equal")):
+            fails.append(dict(what="an equal set built in the opposite order formats differently", out=out[:400],
+                              other=str(rev)[:400], **brief))
+        fails.extend(self.oracle_hashseed(case, obs, brief))
         # line-length rule
         N = p["width"] or 79
         lines = out.split("\n")
@@ -609,6 +730,13 @@ class C11(Prop):
             if any(a != b for a, b in zip(pps, pps[1:])):
                 inc("seq_with_separate_from_imports_flip")
             return
+        if case.get("hashseeds"):
+            inc("formatted_under_3_hash_seeds")
+        if gen_c11.has_alias_family(case["imports"]):
+            inc("one_fullname_under_several_local_names")
+        for i in case["imports"]:
+            if i["mod"] == "__future__":
+                inc("future_" + i["name"])
         p = case["params"]
         inc("align_" + ("bool" if isinstance(p["align"], bool) else "int" if isinstance(p["align"], int) else "set"))
         inc("hanging_" + p["hanging"])
@@ -643,3 +771,10 @@ class C11(Prop):
 
 
 PROP = C11()
+
+
+if __name__ == "__main__" and sys.argv[1:2] == ["--sub"]:
+    import vcommon
+    vcommon.setup_repo_path()
+    _case = json.loads(sys.stdin.read())
+    sys.stdout.write(json.dumps(PROP.run_local(_case)))
